@@ -152,6 +152,15 @@ static void consumer_step()
   vra_set_thread(1);
   Node* before = u->_consumer;
   size_t cap_before = before->bounded_queue._capacity;
+#ifdef SCMODE
+  // the consumer-side emptiness predicate (used by the backend to decide that a thread's queue is drained, e.g. before
+  // a dead thread's context is reclaimed): never true while a committed record is unread - also when the only unread
+  // records live in a node the consumer has not switched to yet; "not empty" with nothing unread only while a node
+  // switch is pending (an empty node published by shrink)
+  bool const reported_empty = u->empty();
+  if (reported_empty) VASSERT(g_read == g_committed);
+  else VASSERT(g_read < g_committed || node_ord(before) + 1 < g_nnodes);
+#endif
   U::ReadResult r = u->prepare_read();
   Node* after = u->_consumer;
   if (after != before)
